@@ -97,7 +97,11 @@ class Build:
 
     def replay(self, pk, entry, model_file, timeout=180):
         """run the harness entry natively with the model; returns dict(failures, panic, assumeFailed, raw)"""
-        env = dict(GOENV, VERIF_REPLAY=model_file, VERIF_ENTRY=entry)
+        # scratch files of the native run (go's build directory, vTempRom images) live in the work directory, which
+        # cleanup() removes
+        tmp = os.path.join(os.path.dirname(self.overlay_file), 'tmp')
+        os.makedirs(tmp, exist_ok=True)
+        env = dict(GOENV, VERIF_REPLAY=model_file, VERIF_ENTRY=entry, TMPDIR=tmp)
         cmd = ['go', 'test', '-vet=off', '-count=1', '-overlay', self.overlay_file, '-run', 'TestVerifReplay$', '-v',
                self.pkgpath(pk)]
         import signal
